@@ -4,6 +4,7 @@ import IxpeVerif.Lemmas.Calendar
 import IxpeVerif.Model.HistIO
 import IxpeVerif.Model.Columns
 import IxpeVerif.Gen.Specs
+import IxpeVerif.Gen.HistGen
 import Mathlib.Logic.Function.Iterate
 
 /-!
@@ -111,6 +112,37 @@ theorem hist_scale (h : Hist ℝ) (v : ℝ) (i : List ℕ) (h1 : 0 ≤ h.sumw2.g
   have := Real.mul_self_sqrt h1
   calc √(h.sumw2.get i) * v * (√(h.sumw2.get i) * v) = (√(h.sumw2.get i) * √(h.sumw2.get i)) * v ^ 2 := by ring
     _ = _ := by rw [this]
+
+/-! ### T-tie: the methods of `xHistogramBase` regenerated from core/hist.py (`Gen/HistGen.lean`, translator/histtrans.py) are the model -/
+
+theorem gen_set_errors_eq_model {α} [RealLike α] (h : Hist α) (e : Arr α) : Gen.Hist.set_errors h e = h.setErrors e := rfl
+theorem gen_errors_eq_model {α} [RealLike α] (h : Hist α) : Gen.Hist.errors h = h.errors := rfl
+theorem gen_set_content_eq_model {α} [RealLike α] (h : Hist α) (c : Arr α) (en er : Option (Arr α)) :
+    Gen.Hist.set_content h c en er = h.setContent c en er := by
+  cases en <;> cases er <;> rfl
+theorem gen_empty_copy_eq_model {α} [RealLike α] (h : Hist α) : Gen.Hist.empty_copy h = h.emptyCopy := rfl
+theorem gen_copy_eq_model {α} [RealLike α] (h : Hist α) : Gen.Hist.copy h = h.copy := rfl
+theorem gen_add_eq_model {α} [RealLike α] (h k : Hist α) : Gen.Hist.hist_add h k = h.add k := rfl
+theorem gen_sub_eq_model {α} [RealLike α] (h k : Hist α) : Gen.Hist.hist_sub h k = h.sub k := rfl
+theorem gen_mul_eq_model {α} [RealLike α] (h : Hist α) (v : α) : Gen.Hist.hist_mul h v = h.scale v := rfl
+theorem gen_save_eq_model {α} [RealLike α] (r32 : α → α) (h : Hist α) : Gen.Hist.save r32 h = h.save r32 := rfl
+theorem gen_from_file_eq_model {α} [RealLike α] (f : File α) : Gen.Hist.from_file f = load f := rfl
+
+/-- **save then load gives the histogram back, on the current source** (every number of axes, every shape) -/
+theorem gen_hist_load_save (r32 : ℝ → ℝ) (h : Hist ℝ) (hs : ∀ i ∈ indices h.sumw2.shape, 0 ≤ h.sumw2.get i) :
+    (Gen.Hist.from_file (Gen.Hist.save r32 h)).Same { h with binning := h.binning.map (·.map r32) } := by
+  rw [gen_save_eq_model, gen_from_file_eq_model]; exact hist_load_save r32 h hs
+
+/-- any number of save / load cycles, on the current source -/
+theorem gen_hist_cycles_stable (r32 : ℝ → ℝ) (hr : ∀ x, r32 (r32 x) = r32 x) (h : Hist ℝ) (n : ℕ) :
+    ((fun k => Gen.Hist.from_file (Gen.Hist.save r32 k))^[n + 1] h).Same (Gen.Hist.from_file (Gen.Hist.save r32 h)) := by
+  have e : (fun k : Hist ℝ => Gen.Hist.from_file (Gen.Hist.save r32 k)) = fun k => load (k.save r32) := rfl
+  rw [e, gen_save_eq_model, gen_from_file_eq_model]; exact hist_cycles_stable r32 hr h n
+
+/-- a copy is the histogram, errors included, on the current source -/
+theorem gen_hist_copy_eq {α} [RealLike α] (h : Hist α) : Gen.Hist.copy h = h := by
+  rw [gen_copy_eq_model]; exact hist_copy_eq h
+
 
 /-- **every reachable histogram has `sumw2 ≥ 0`** (so `hist_load_save` applies to it): a new histogram followed by any
 sequence of weighted fills -/
